@@ -109,6 +109,9 @@ class SmallBufferAllocator {
     auto& globals = getSmallBufferGlobals<kChunkSize>();
     auto& lock = globals.backingStoreLock;
     while (!lock.compare_exchange_weak(allocId, 1, std::memory_order_acquire)) {
+      // A failed exchange stores the observed value in allocId; without resetting it the retry would
+      // be CAS(1 -> 1), which "acquires" a lock that grabFromCentralStore() holds.
+      allocId = 0;
     }
     size_t bytes = kMallocBytes * globals.backingStore.size();
     lock.store(0, std::memory_order_release);
